@@ -99,3 +99,18 @@ Proof.
   pose proof (needs_exact (embed c) W) as E. rewrite <- embed_deps in E. simpl in E.
   unfold steps_of. rewrite asserts_app, embed_wd. simpl. rewrite embed_wd in E. simpl in E. exact E.
 Qed.
+
+Lemma embed_wire c : wire_of (embed c) = vwire_of c.
+Proof.
+  destruct c as [fmt tgt [v|] dop|body|src flt|k body]; simpl; rewrite ?app_nil_r; try reflexivity.
+  unfold alu_builds_target. destruct (beq fmt s_f_xml); simpl; [now rewrite ?app_nil_r|].
+  destruct (beq fmt s_vg_cli); simpl; now rewrite ?app_nil_r.
+Qed.
+
+(* a vendor request that went out carries no capability-dependent construct the server did not advertise *)
+Lemma c09_vendor_wire_backed : forall (uris : list bytes) (c : vgcall) (w : wire) (k : bytes),
+  snd (vperform (SCaps (caps_of uris)) c) = Sent -> In w (vwire_of c) -> In k (wire_needs w) -> advertised uris k.
+Proof.
+  intros uris c w k H Hw Hk. rewrite vperform_embed in H. rewrite <- embed_wire in Hw.
+  exact (c09_wire_backed uris (embed c) w k H Hw Hk).
+Qed.
